@@ -7,10 +7,14 @@
 (*   re-encode -> decode again.                                             *)
 (* A class: root convertible or not; number of invalid failure messages;   *)
 (* invalid UTF-8 in another string field; failure chain depth in / at /     *)
-(* over the supported maximum; wire intact or truncated.                    *)
+(* over the supported maximum; wire intact or truncated; and what the same  *)
+(* process decoded for the same message type just before (nothing, a        *)
+(* message whose failure chain is too deep, a message that was repaired):   *)
+(* the codec is a function of the bytes - Outcome does not read `prior`.    *)
 (***************************************************************************)
 EXTENDS Integers, TLC, Json
-Classes == [root : {"conv", "unconv"}, fail : 0..2, other : BOOLEAN, depth : {"in", "at", "over"}, wire : {"ok", "truncated"}]
+Classes == [root : {"conv", "unconv"}, fail : 0..2, other : BOOLEAN, depth : {"in", "at", "over"}, wire : {"ok", "truncated"},
+            prior : {"none", "overdeep", "repaired"}]
 \* the standard codec accepts the message
 StdOk(c) == c.wire = "ok" /\ c.fail = 0 /\ ~c.other
 \* outcome of the codec: "same" (exactly what the standard codec yields), "repaired", "error"
